@@ -21,6 +21,29 @@ impl ViewBounds for SelV {
         // extreme bounds are instantiated with the unsigned maxima (u64 on even, usize on odd axes) where the
         // other bound allows an unsigned range, with i64::MAX / i64::MIN otherwise
         let even = size % 2 == 0;
+        // non-negative ordinary bounds go through the unsigned implementations on odd axes (type by a % 4)
+        let small = |x: i64| (0..=255).contains(&x);
+        if !even {
+            macro_rules! unsigned {
+                ($t:ty) => {
+                    match self.form.as_str() {
+                        "idx" if small(a) => return (a as $t).view_bounds(size),
+                        "range" if small(a) && small(b) => return (a as $t..b as $t).view_bounds(size),
+                        "from" if small(a) => return (a as $t..).view_bounds(size),
+                        "to" if small(b) => return (..b as $t).view_bounds(size),
+                        "incl" if small(a) && small(b) => return (a as $t..=b as $t).view_bounds(size),
+                        "toincl" if small(b) => return (..=b as $t).view_bounds(size),
+                        _ => {}
+                    }
+                };
+            }
+            match (a + b).rem_euclid(4) {
+                0 => unsigned!(u8),
+                1 => unsigned!(u16),
+                2 => unsigned!(u32),
+                _ => unsigned!(usize),
+            }
+        }
         match self.form.as_str() {
             "idx" if big(a) => if even { u64::MAX.view_bounds(size) } else { usize::MAX.view_bounds(size) },
             "idx" => lo(a).view_bounds(size),
